@@ -13,11 +13,20 @@
    - [sels_noent] / [frags_noent]  no field named _entities in the selections / fragments
    - [sel_reqs e fl]          names required by the FReq fields of [e] selected at top level of [fl]
    - [reqs_covered e fl kr]   those names are among the representation fields [kr]
-   - [two_step] / [mono_hop]  the two-request composition and the monolithic execution (ProofsTwoStep.v) *)
+   - [two_step] / [mono_hop]  the two-request composition and the monolithic execution (ProofsTwoStep.v)
+   - [config_wf_b sc sc']     the subgraph schema sc' is a well-formed projection of the supergraph sc
+   - [univ_ok_b sc' U]        objects reached through sc'-fields have sc'-declared object types
+   - [req_ok_b sc' frags vars A k objty sels]  the request is executable on sc' (type conditions declared,
+                              variables within A, a type-level dry run finds every selected field)
+   - [dedup] / [undedup]      first occurrences of the representations / results mapped back by index
+   - [two_step_list]          list hop: collect, de-duplicate, one _entities call, merge item-wise
+   - [two_step_abs]           abstract hop: runtime type read from __typename (ProofsAbstractHop.v)
+   - [plan_of] / [run_plan] / [plan_ok_b]  the depth-1 plan language, its execution and checker (ProofsPlan*.v)
+   Examples: Examples.v, ExamplesWf.v, ExamplesList.v, ExamplesAbstract.v, ExamplesPlan.v *)
 From Coq Require Import PeanoNat Lia.
 From Gv Require Import lib.Bytes lib.Json lib.Gql lib.Exec
      C01.ProofsBase C01.ProofsFuel C01.ProofsSplit C01.ProofsSim C01.ProofsJoin C01.ProofsOverlap C01.ProofsTwoStep
-     C01.ProofsCtxBase C01.ProofsCtx C01.ProofsTwoStepWf C01.ProofsDedup C01.ProofsViol C01.ProofsListHop C01.ProofsListHopWf C01.ProofsAbstractHop.
+     C01.ProofsCtxBase C01.ProofsCtx C01.ProofsTwoStepWf C01.ProofsDedup C01.ProofsViol C01.ProofsListHop C01.ProofsListHopWf C01.ProofsAbstractHop C01.ProofsPlanAlg C01.ProofsPlan C01.ProofsPlanOk.
 Open Scope N_scope.
 
 (* ---- E1: a result without XOutOfFuel does not change when more fuel is supplied ---- *)
@@ -744,4 +753,46 @@ Theorem federated_two_step_abstract :
   selB tbl f1 f2 = mono_hop U sc frags vars P eP af f args dirs path selA selB fM.
 Proof. exact ProofsAbstractHop.federated_two_step_abstract_main. Qed.
 Print Assumptions federated_two_step_abstract.
+
+
+(* ---- (4) plan soundness, entity fetches at depth 1 under distinct root fields (partial: see the hypotheses of plan_ok_b) ---- *)
+Theorem plan_state_algebra :
+  forall (U : universe) (sc : schema) (frags : list fragment) (vdsM : list vardef)
+  (supM : list (bytes * json)) (sc0 : schema) (eQ : entity) (g0 f1 f2 fM : nat)
+  (ds : list dfield),
+  Forall (link U sc frags vdsM supM sc0 eQ g0 f1 f2 fM) ds ->
+  keys_distinct (map root_sel ds) = true ->
+  (length ds + 2 <= f1)%nat ->
+  (length ds + 2 <= fM)%nat ->
+  no_oof (snd (mono_plan U sc frags vdsM supM eQ fM ds)) = true ->
+  fst
+  (run_fetches (efs U sc frags vdsM supM g0 f2 ds)
+  (exec_sels sc0 U frags (pvars vdsM supM) Sub f1 (s_query sc)
+  {| ov_ent := eQ; ov_repr := None |} (map root_sel ds) [])) =
+  fst (mono_plan U sc frags vdsM supM eQ fM ds) /\
+  (snd
+  (run_fetches (efs U sc frags vdsM supM g0 f2 ds)
+  (exec_sels sc0 U frags (pvars vdsM supM) Sub f1 (s_query sc)
+  {| ov_ent := eQ; ov_repr := None |} (map root_sel ds) [])) = [] <->
+  snd (mono_plan U sc frags vdsM supM eQ fM ds) = []).
+Proof. exact ProofsPlan.plan_alg. Qed.
+Print Assumptions plan_state_algebra.
+
+Theorem plan_ok_sound_keys_partial :
+  forall (U : universe) (sc : schema) (frags : list fragment) (vdsM : list vardef)
+  (supM : list (bytes * json)) (sc0 : schema) (eQ : entity) (g0 kq f1 f2 fM : nat)
+  (decls : list (name * list name)),
+  find_entity U (s_query sc) [] = Some eQ ->
+  forall ds : list dfield,
+  plan_ok_b U sc frags vdsM supM sc0 g0 kq decls ds = true ->
+  no_oof (snd (mono_plan U sc frags vdsM supM eQ fM ds)) = true ->
+  (length ds + 2 <= fM)%nat ->
+  (plan_fuel g0 fM ds <= f1)%nat ->
+  (plan_fuel g0 fM ds + g0 <= f2)%nat ->
+  fst (run_plan U sc frags vdsM supM eQ f1 f2 (plan_of sc frags vdsM supM sc0 g0 ds)) =
+  fst (mono_plan U sc frags vdsM supM eQ fM ds) /\
+  (snd (run_plan U sc frags vdsM supM eQ f1 f2 (plan_of sc frags vdsM supM sc0 g0 ds)) = [] <->
+  snd (mono_plan U sc frags vdsM supM eQ fM ds) = []).
+Proof. exact ProofsPlanOk.plan_ok_sound_keys_partial. Qed.
+Print Assumptions plan_ok_sound_keys_partial.
 
